@@ -119,11 +119,7 @@ static int modeOffer(const Value& in)
       base["compR"] = Value(f->getCompatibleSpaceR() ? 1 : 0);
       base["onRn"] = Value(f->hasCovOnRn() ? 1 : 0);
       delete f;
-      int consistent = -1;
-      // (a CovAniso of the Markov structure runs an FFT over 512^d nodes in its constructor: not built here)
-      if (base.at("compR").i() == 1)
-        try { CovAniso c(t, ctxt); consistent = c.isConsistent(&space) ? 1 : 0; } catch (std::exception& e) { consistent = -1; }
-      base["consistent"] = Value(consistent);
+      bool compR = base.at("compR").i() == 1;
       // shape parameters
       std::vector<std::pair<int, int>> ps;
       if (probes.has(key)) for (auto& p : probes.at(key).arr) ps.push_back({p[0].i(), p[1].i()});
@@ -133,9 +129,14 @@ static int modeOffer(const Value& in)
         Value o = base;
         double param = (double)p.first / p.second;
         o["pn"] = Value(p.first); o["pd"] = Value(p.second);
-        int admitted = 1, built = 0;
+        int admitted = 1, built = 0, consistent = -1;
+        // CovAniso::isConsistent with the shape parameter set (a constructor that refuses counts as not consistent);
+        // a CovAniso of the Markov structure runs an FFT over 512^d nodes in its constructor: not built here
+        if (compR)
+          try { CovAniso c(t, ctxt); c.setParam(param); consistent = c.isConsistent(&space) ? 1 : 0; } catch (std::exception& e) { consistent = 0; }
+        o["consistent"] = Value(consistent);
         double scadef = std::nan(""), k0 = std::nan(""), range = std::nan(""), scale = std::nan("");
-        if (base.at("compR").i() == 0) { o["admitted"] = Value(1); o["built"] = Value(0); emit(o); continue; }   // no covariance in R^d (the Markov one runs an FFT of 512^d nodes)
+        if (!compR) { o["admitted"] = Value(1); o["built"] = Value(0); emit(o); continue; }   // no covariance in R^d (the Markov one runs an FFT of 512^d nodes)
         try
         {
           Model* m = Model::createFromParam(t, 2., 1., param, VectorDouble(), VectorDouble(), VectorDouble(), &space);
